@@ -64,7 +64,10 @@ def oracle(prog, obs, impl):
                 if tv < cur * (1 - F(1, 10**4)) and tv > 0:
                     # a lower target is reachable unless the capacity forbids it
                     sd = [s for s in subs if s['id'] == op['solvent']][0]
-                    if before['max'] is None and sd['kind'] != 'Enzyme' and op['solvent'] != op['solute']:
+                    one_ = {'cont': {op['solvent']: F(1)}, 'vol': F(0), 'max': None, 't': 'c'}
+                    if not conc_den(subs, one_, target[2]):
+                        pass      # the solvent adds nothing to the denominator (a solid without volume and a per-volume target): no amount of it dilutes
+                    elif before['max'] is None and sd['kind'] != 'Enzyme' and op['solvent'] != op['solute']:
                         fails.append((i, f"dilute from {float(cur)!r} to the lower {float(tv)!r} {target[1]}/{target[2]} was refused: {o['exc']} {o.get('msg')}"))
                     elif before['max'] is not None and sd['kind'] != 'Enzyme' and op['solvent'] != op['solute']:
                         # with a capacity: the amount x of solvent that reaches the target solves  num / (den0 + x * k) = target  (adding
@@ -191,7 +194,9 @@ def run(chk, gate, status):
     gens = make_cases(chk)
     chk.assumptions += ["dilution of enzymes is declared unsupported by the library and is not generated; enzymes occur as bystanders",
                         "targets within 1e-4 (relative) of the current concentration are not judged for accept/refuse"]
-    return histcheck.run(chk, gens, oracle, 'C11', RULE, nontrivial)
+    cov = histcheck.run(chk, gens, oracle, 'C11', RULE, nontrivial)
+    cov['operations_under_configuration_variants'] = histcheck.variants(chk, gens, oracle, 'C11v', limit=10 if chk.tier == 'quick' else 60)
+    return cov
 
 
 def replay(path):
